@@ -42,7 +42,7 @@ PROPS = {
     "C01": {
         "families": ["vec"],
         "level": "exploration",
-        "rule": "one run = one seeded plan (scenario type, pool of 1-3 objects, 1-60 abstract steps interpreted modulo the "
+        "rule": "one run = one seeded plan (scenario type, pool of 1-3 objects, 1-60 abstract steps - one run in 64: 120-960 - interpreted modulo the "
                 "observable state) executed against the real headers and a std::vector model in lock-step; a run is "
                 "non-trivial if it contains >=3 state-changing steps and >=1 boundary event (became full, became empty, "
                 "fault fired, refusal at capacity, cross-object step); distinct = distinct 64-bit hashes of the executed "
